@@ -1,10 +1,14 @@
 package props
 
 import (
+	"sync"
+
+	"github.com/ipld/go-ipld-prime"
 	"github.com/ipld/go-ipld-prime/datamodel"
 	"github.com/ipld/go-ipld-prime/fluent/qp"
 	cidlink "github.com/ipld/go-ipld-prime/linking/cid"
 	"github.com/ipld/go-ipld-prime/node/basicnode"
+	"github.com/ipld/go-ipld-prime/node/bindnode"
 )
 
 // small IPLD construction helpers (independent of go-ucan's literal package)
@@ -103,5 +107,38 @@ func selectorData() []namedNode {
 		{`"e+U+0301+xy"`, nStr("e\u0301xy")},
 		{`"U+1F600,a,U+0301,b,c"`, nStr("\U0001F600a\u0301bc")},
 		{`{a:"U+1F600,U+1F601,x"}`, nMap(kv{"a", nStr("\U0001F600\U0001F601x")})},
+		// schema-typed values (bindnode): what counts is the node interface - a struct is a map of its fields whatever its wire form
+		{"typed-struct-as-tuple{a:1,b:xy}", typedNodes().tup},
+		{"typed-struct-as-joined-string{a:p,b:q}", typedNodes().sj},
+		{"typed-struct{a:tuple{a:1,b:xy},b:[1,2,3]}", typedNodes().outer},
 	}
 }
+
+type typedSet struct{ tup, sj, outer datamodel.Node }
+
+var typedOnce = sync.OnceValue(func() typedSet {
+	ts, err := ipld.LoadSchemaBytes([]byte(`
+		type Tup struct { a Int  b String } representation tuple
+		type SJ struct { a String  b String } representation stringjoin { join ":" }
+		type Outer struct { a Tup  b [Int] }
+	`))
+	if err != nil {
+		panic(err)
+	}
+	type tup struct {
+		A int64
+		B string
+	}
+	type sj struct{ A, B string }
+	type outer struct {
+		A tup
+		B []int64
+	}
+	return typedSet{
+		tup:   bindnode.Wrap(&tup{1, "xy"}, ts.TypeByName("Tup")),
+		sj:    bindnode.Wrap(&sj{"p", "q"}, ts.TypeByName("SJ")),
+		outer: bindnode.Wrap(&outer{tup{1, "xy"}, []int64{1, 2, 3}}, ts.TypeByName("Outer")),
+	}
+})
+
+func typedNodes() typedSet { return typedOnce() }
